@@ -1264,11 +1264,16 @@ func (n *leaf) Validate(ctx ValidateCtx, path []string, p []string) error {
 	}
 	h, t := p[0], p[1:]
 	path = append(path, h)
+	// The value comes first in the path: if it is not one of the type,
+	// it is the first offending element, whatever follows it.
+	if err := n.Type().Validate(ctx, path, h); err != nil {
+		return err
+	}
 	// There should be nothing after the value
 	if len(t) != 0 {
 		return NewPathInvalidError(path, p[1])
 	}
-	return n.Type().Validate(ctx, path, h)
+	return nil
 }
 
 func (n *leaf) DefaultChildNames() []string {
@@ -1862,11 +1867,15 @@ func (n *leafList) Validate(ctx ValidateCtx, path []string, p []string) error {
 	}
 	h, t := p[0], p[1:]
 	path = append(path, h)
+	// (as for a leaf: an invalid value is reported before what follows it)
+	if err := n.typ.Validate(ctx, path, h); err != nil {
+		return err
+	}
 	// There should be nothing after the value
 	if len(t) != 0 {
 		return NewPathInvalidError(path, p[1])
 	}
-	return n.typ.Validate(ctx, path, h)
+	return nil
 }
 
 func (n *leafList) Child(name string) Node {
